@@ -2818,10 +2818,25 @@ impl QueryRouter {
             let cp_guard = checkpoint.lock().await;
             cp_guard.rollback(&target, store).await
         })?;
+        self.resync_engines_after_restore()?;
 
         Ok(QueryResult::Value(format!(
             "Rolled back to checkpoint: {target}"
         )))
+    }
+
+    /// The engines cache parts of the store in memory (relational B-tree indexes and constraint
+    /// cache, graph property indexes and constraints, cached HNSW indexes) and the router caches
+    /// query results; after the store's content was replaced by a rollback all of these describe
+    /// the content from before it.
+    fn resync_engines_after_restore(&self) -> Result<()> {
+        self.relational.resync_after_restore()?;
+        self.graph.resync_after_restore();
+        self.vector.clear_hnsw_cache();
+        if let Some(cache) = self.cache.as_ref() {
+            cache.clear();
+        }
+        Ok(())
     }
 
     fn exec_checkpoints(&self, stmt: &CheckpointsStmt) -> Result<QueryResult> {
@@ -7327,6 +7342,7 @@ impl QueryRouter {
         let store = self.vector.store();
         let cp_guard = checkpoint.lock().await;
         cp_guard.rollback(&target, store).await?;
+        self.resync_engines_after_restore()?;
 
         Ok(QueryResult::Value(format!(
             "Rolled back to checkpoint: {target}"
